@@ -32,7 +32,7 @@ from ..spec import hashes as H
 from . import hashctx
 
 EXPLANATION = __doc__
-TECHNIQUE = "value-graph equality (abstract interpretation of MIR in a hash-consed bit-level term domain with linear-combination, parity and truth-table normal forms) against specification graphs; evaluated constants vs. definition-derived oracle, wiring by canonical expression, linear-form predicate of the padding branch, term-domain dataflow with loop unrolling and bit provenance for pad / parameter bytes"
+TECHNIQUE = "value-graph equality (abstract interpretation of MIR in a hash-consed bit-level term domain with linear-combination, parity and truth-table normal forms) against specification graphs; evaluated constants vs. definition-derived oracle, wiring by canonical expression, linear-form predicate of the padding branch, term-domain dataflow with loop unrolling and bit provenance for pad / parameter bytes; bounded shape evaluation (concrete offsets / lengths derived from the code's own length constants, symbolic contents, opaque recorded leaf calls) of the buffering loops"
 
 
 def cn(fn, op):
